@@ -207,6 +207,7 @@ pub fn run() {
                 "skip_regex" => cur.skip_regex(value),
                 "skip_exact" => cur.skip_exact(value),
                 "config_with_args" => cur.config_with_args(),
+                "bytes_format" => cur.bytes_format(if value == "binary" { divan::counter::BytesFormat::Binary } else { divan::counter::BytesFormat::Decimal }),
                 "list" | "test" | "bench" | "main" | "par2_test" => {
                     action = name.to_owned();
                     cur
